@@ -11,6 +11,7 @@
                               state where main waits forever while a socket stays bound.
 -/
 import NV.Model.Listen
+import NV.Gen.Listen
 namespace NV.C16
 open NV.Listen
 
@@ -606,5 +607,174 @@ theorem returned_reachable : ∃ s, Reachable 2 s ∧ s.stopped = false ∧ s.mp
       · simp at hr
   exact ⟨_, hrun [.bindFail 0, .send 0, .cancel 0, .wake, .sweep, .bindOk 1, .register 1,
       .serveRet 1, .send 1, .cancel 1, .collect] (init 2) _ Reachable.init rfl, rfl, rfl⟩
+
+/-! ### the `errs` channel never fills up (tie of the unbounded-channel model to the buffered channel)
+
+The model's `send`/`wake` append to `errs` without ever blocking. The real channel is buffered; a
+send blocks when `cap` results are queued and nobody drains before the final loop. `errs_bounded`
+shows that at most `n + 1` results are ever queued with `n` listener threads; the regenerated
+capacity is at least that (`gen_errs_never_blocks`), and the final loop receives exactly as many
+results as are sent (`gen_drain_exact`), so neither a sender nor the drain loop can wait forever on
+the channel itself. -/
+
+def rep : LPc → Nat
+  | .sent => 1 | .done => 1 | _ => 0
+
+def rsum : List L → Nat
+  | [] => 0
+  | l :: ls => rep l.pc + rsum ls
+
+theorem rsum_set (ls : List L) (i : Nat) (l l' : L) (h : ls[i]? = some l) :
+    rsum (ls.set i l') + rep l.pc = rsum ls + rep l'.pc := by
+  induction ls generalizing i with
+  | nil => simp at h
+  | cons a as ih =>
+    cases i with
+    | zero => simp at h; subst h; simp [rsum]; omega
+    | succ k => simp at h; have := ih k h; simp [rsum]; omega
+
+theorem rsum_ge (ls : List L) (i : Nat) (l : L) (h : ls[i]? = some l) : rep l.pc ≤ rsum ls := by
+  induction ls generalizing i with
+  | nil => simp at h
+  | cons a as ih =>
+    cases i with
+    | zero => simp at h; subst h; simp [rsum]
+    | succ k => simp at h; have := ih k h; simp [rsum]; omega
+
+theorem rsum_set' (ls : List L) (i : Nat) (l l' : L) (h : ls[i]? = some l) :
+    rsum (ls.set i l') = rsum ls + rep l'.pc - rep l.pc := by
+  have := rsum_set ls i l l' h
+  omega
+
+theorem rsum_map_close (ls : List L) : rsum (ls.map closeRegistered) = rsum ls := by
+  induction ls with
+  | nil => rfl
+  | cons a as ih =>
+    simp only [List.map_cons, rsum, ih]
+    unfold closeRegistered; split <;> rfl
+
+theorem rsum_le_length (ls : List L) : rsum ls ≤ ls.length := by
+  induction ls with
+  | nil => simp [rsum]
+  | cons a as ih => simp only [rsum, List.length_cons]; cases h : a.pc <;> simp [rep] <;> omega
+
+/-- queued results = listeners that have reported + main's own `ctx.Err()` -/
+def EInv (s : S) : Prop :=
+  s.errs.length = rsum s.ls + (if s.mpc = .waiting then 0 else 1)
+
+theorem einv_step (s s' : S) (a : Act) (h : EInv s) (hs : step s a = some s') : EInv s' := by
+  unfold EInv at *
+  cases a with
+  | bindFail i | bindOk i | serveRet i | cancel i | register i | send i =>
+    simp only [step] at hs
+    split at hs
+    · rename_i l hget
+      repeat' split at hs
+      all_goals first
+        | (simp at hs; done)
+        | (simp only [Option.some.injEq] at hs
+           subst hs
+           have hle := rsum_ge s.ls i l hget
+           simp only []
+           rw [rsum_set' s.ls i l _ hget]
+           simp_all [rep]
+           try omega)
+    · simp at hs
+  | wake =>
+    simp only [step] at hs
+    split at hs
+    · rename_i hc
+      simp only [Option.some.injEq] at hs
+      subst hs
+      simp [hc.1] at h ⊢; omega
+    · simp at hs
+  | collect =>
+    simp only [step] at hs
+    split at hs
+    · rename_i hc
+      simp only [Option.some.injEq] at hs
+      subst hs
+      simp [hc.1] at h ⊢; omega
+    · simp at hs
+  | sweep =>
+    simp only [step] at hs
+    split at hs
+    · rename_i hc
+      simp only [Option.some.injEq] at hs
+      subst hs
+      simp [hc, rsum_map_close] at h ⊢; omega
+    · simp at hs
+  | stop =>
+    simp only [step] at hs
+    split at hs
+    · simp only [Option.some.injEq] at hs
+      subst hs
+      exact h
+    · simp at hs
+
+theorem length_step (s s' : S) (a : Act) (hs : step s a = some s') : s'.ls.length = s.ls.length := by
+  cases a with
+  | bindFail i | bindOk i | serveRet i | cancel i | register i | send i =>
+    simp only [step] at hs
+    split at hs
+    · repeat' split at hs
+      all_goals first
+        | (simp at hs; done)
+        | (simp only [Option.some.injEq] at hs; subst hs; simp)
+    · simp at hs
+  | wake | collect | sweep | stop =>
+    simp only [step] at hs
+    split at hs
+    · simp only [Option.some.injEq] at hs; subst hs; simp
+    · simp at hs
+
+/-- **C16 (the result channel)**: with `n` listener threads at most `n + 1` results are ever queued,
+in every reachable state of every interleaving. -/
+theorem errs_bounded (n : Nat) (s : S) (h : Reachable n s) : s.errs.length ≤ n + 1 := by
+  have key : EInv s ∧ s.ls.length = n := by
+    induction h with
+    | init => exact ⟨by simp [EInv, init, rsum_replicate_zero], by simp [init]⟩
+    | step _ hs ih => exact ⟨einv_step _ _ _ ih.1 hs, by rw [length_step _ _ _ hs]; exact ih.2⟩
+  have h1 := key.1
+  have h2 := rsum_le_length s.ls
+  unfold EInv at h1
+  split at h1 <;> omega
+where
+  rsum_replicate_zero : ∀ k, rsum (List.replicate k ({} : L)) = 0 := by
+    intro k; induction k with
+    | zero => rfl
+    | succ k ih => simp [List.replicate_succ, rsum, rep, ih]
+
+/-- the bound is reached: both listeners of one address fail and report before main pushes its own
+result (the schedule on which a channel one slot short blocks main forever). -/
+theorem errs_bound_reached :
+    ∃ s, run (init 2) [.bindFail 0, .bindFail 1, .send 0, .send 1, .cancel 0, .wake] = some s ∧
+      s.errs.length = 2 + 1 := ⟨_, rfl, rfl⟩
+
+open NV.Gen.Listen in
+/-- **C16 (regenerated)**: for any number `a` of addresses, `ListenAndServe` starts
+`goroutinesPerAddr · a` listener threads, each sending exactly one result, main sends one, and the
+`errs` channel holds them all: no send on `errs` can block. -/
+theorem gen_errs_never_blocks (a : Nat) :
+    listenerSends.length = goroutinesPerAddr ∧ listenerSends.all (· = 1) = true ∧ mainSends = 1 ∧
+    goroutinesPerAddr * a + 1 ≤ errsCap.1 * a + errsCap.2 := by
+  refine ⟨by decide, by decide, by decide, ?_⟩
+  simp only [goroutinesPerAddr, errsCap]; omega
+
+open NV.Gen.Listen in
+/-- **C16 (regenerated)**: the final loop receives exactly as many results as are sent — one fewer
+send and it would wait forever, one more and it would return with a listener still serving. -/
+theorem gen_drain_exact (a : Nat) :
+    drainCount.1 * a + drainCount.2 = listenerSends.sum * a + mainSends ∧ drainIsLast = true := by
+  refine ⟨?_, by decide⟩
+  simp only [drainCount, listenerSends, mainSends, List.sum_cons, List.sum_nil]; omega
+
+open NV.Gen.Listen in
+/-- **C16 (regenerated)**: the atomic steps of the model are in the order of the source: every
+listener reports before it cancels, main pushes after `ctx.Done()` and before the sweep, `register`
+tests `closed` and the sweep sets it. -/
+theorem gen_protocol_order :
+    listenerSendThenCancel.all id = true ∧ listenerSendThenCancel.length = goroutinesPerAddr ∧
+    mainSendAfterDone = true ∧ registerTestsClosed = true ∧ sweepSetsClosed = true := by decide
 
 end NV.C16
